@@ -56,6 +56,7 @@ type param struct {
 type resp struct {
 	Code  string `json:"code"`
 	Ref   string `json:"ref,omitempty"`
+	Prim  string `json:"prim,omitempty"` // a primitive response schema (instead of Ref)
 	Array bool   `json:"array,omitempty"`
 }
 type endpoint struct {
@@ -64,6 +65,10 @@ type endpoint struct {
 	Params  []param `json:"params,omitempty"`
 	BodyRef string  `json:"body_ref,omitempty"`
 	Resps   []resp  `json:"resps"`
+	// request / response media types: OpenAPI 2 operation-level `consumes` / `produces`, OpenAPI 3 the keys of
+	// requestBody.content / responses.<code>.content (empty: application/json)
+	Consumes []string `json:"consumes,omitempty"`
+	Produces []string `json:"produces,omitempty"`
 }
 type pathLevel struct {
 	Path   string  `json:"path"`
@@ -78,6 +83,27 @@ type doc struct {
 	// parameters declared on the path item: every operation of the path inherits them, an operation-level
 	// parameter with the same (name, in) overrides
 	PathLevel []pathLevel `json:"path_level,omitempty"`
+	// document-level `consumes` (OpenAPI 2): the request media types of every operation that has none of its own
+	Consumes []string `json:"consumes,omitempty"`
+	// Repeat > 0: the worker imports the document that many times more; every text must be byte-identical
+	Repeat int `json:"repeat,omitempty"`
+	// ImportOnly: the worker imports once and reports the text (fresh-process repetitions)
+	ImportOnly bool `json:"import_only,omitempty"`
+}
+
+// effConsumes: the request media types of an operation (its own, else the document's, else any / JSON)
+func (d doc) effConsumes(e endpoint) []string {
+	if len(e.Consumes) > 0 {
+		return e.Consumes
+	}
+	if len(d.Consumes) > 0 && d.Format != "openapi3" {
+		return d.Consumes
+	}
+	if d.Format == "swagger" {
+		// OpenAPI 2 without any `consumes`: the body is not tied to a media type
+		return []string{"*/*"}
+	}
+	return []string{"application/json"}
 }
 
 // effectiveParams: what OpenAPI says the operation's parameters are (path-level ones unless overridden, then its own)
@@ -115,7 +141,90 @@ var oasPrims = map[string]primExp{
 }
 var oasPrimNames = []string{"string", "date", "date-time", "byte", "binary", "integer", "int32", "int64", "number", "float", "double", "boolean"}
 
+// A primitive may also be spelled "type:format" (any OpenAPI type with any format, or with none: "integer:").
+// OpenAPI: `format` is an open-valued hint; the formats the specification defines for a type select a kind
+// (string: date, date-time, byte, binary; integer: int32, int64; number: float, double), every other format
+// - defined for another type or not defined at all - leaves the kind of the bare type.
+var oasTypes = []string{"string", "integer", "number", "boolean"}
+var oasBaseKind = map[string]primExp{"string": {"STRING", 0}, "integer": {"INT", 0}, "number": {"FLOAT", 0}, "boolean": {"BOOL", 0}}
+var oasDefinedFormats = map[string]map[string]primExp{
+	"string":  {"date": {"DATE", 0}, "date-time": {"DATETIME", 0}, "byte": {"BYTES", 0}, "binary": {"BYTES", 0}},
+	"integer": {"int32": {"INT", 32}, "int64": {"INT", 64}},
+	"number":  {"float": {"FLOAT", 0}, "double": {"FLOAT", 0}},
+}
+
+// the formats the importer's table lists (for any type) and formats in common use that it does not list
+var oasListedFormats = []string{"int32", "int64", "float", "double", "date", "date-time", "byte", "binary", "uuid", "uri"}
+var oasUnlistedFormats = []string{"uint32", "uint64", "int16", "int8", "decimal", "email", "password", "hostname", "ipv4", "time", "currency", "x-custom"}
+
+func splitPrim(p string) (typ, format string, ok bool) {
+	if i := strings.IndexByte(p, ':'); i >= 0 {
+		return p[:i], p[i+1:], true
+	}
+	return "", "", false
+}
+
+func oasPrimExp(p string) primExp {
+	if t, f, ok := splitPrim(p); ok {
+		if e, ok := oasDefinedFormats[t][f]; ok {
+			return e
+		}
+		return oasBaseKind[t]
+	}
+	e, ok := oasPrims[p]
+	if !ok {
+		panic("prim " + p)
+	}
+	return e
+}
+
+// primMatches: is the compiled field the primitive the foreign type asks for? `string` with format `uuid` may also
+// be Sysl's builtin type name uuid (the grammar has no such native type: the compiler reads it as a reference to
+// `uuid`, which every consumer treats as the builtin).
+func primMatches(p string, e primExp, f fieldProj) bool {
+	if f.Kind == e.kind && (e.bits == 0 || f.Bits == e.bits) {
+		return true
+	}
+	if p == "string:uuid" && (f.Kind == "UUID" || f.Kind == "REF" && f.Ref == "uuid") {
+		return true
+	}
+	return false
+}
+
+// primClass: the part of a finding key that names the foreign primitive: listed names as they are, type:format
+// with the format kept only when OpenAPI defines it for some type (other formats are one class: "other")
+func primClass(p string) string {
+	t, f, ok := splitPrim(p)
+	if !ok {
+		return p
+	}
+	if f == "" {
+		return t
+	}
+	if _, defined := oasDefinedFormats[t][f]; defined {
+		// the same class as the short spelling (int64, date-time, ...)
+		return f
+	}
+	if (t == "string" || t == "boolean") && (f == "int32" || f == "int64") {
+		// a bit-width format on a type that has no width
+		return "non-number+int-width"
+	}
+	for _, l := range oasListedFormats {
+		if f == l {
+			return t + "+" + f
+		}
+	}
+	return t + "+unlisted-format"
+}
+
 func oasPrimJSON(p string) map[string]interface{} {
+	if t, f, ok := splitPrim(p); ok {
+		m := map[string]interface{}{"type": t}
+		if f != "" {
+			m["format"] = f
+		}
+		return m
+	}
 	switch p {
 	case "string", "integer", "number", "boolean":
 		return map[string]interface{}{"type": p}
@@ -131,8 +240,19 @@ func oasPrimJSON(p string) map[string]interface{} {
 
 var xsdPrims = map[string]primExp{
 	"string": {"STRING", 0}, "integer": {"INT", 0}, "int": {"INT", 0}, "boolean": {"BOOL", 0}, "date": {"DATE", 0},
+	// the wider set (stream xsd-builtins): builtins that Sysl has a type for under the same name, string-like
+	// builtins, and numeric builtins
+	"dateTime": {"DATETIME", 0}, "decimal": {"DECIMAL", 0}, "float": {"FLOAT", 0},
+	"time": {"STRING", 0}, "NMTOKEN": {"STRING", 0}, "token": {"STRING", 0}, "anyURI": {"STRING", 0}, "normalizedString": {"STRING", 0},
+	"long": {"INT", 0}, "short": {"INT", 0}, "unsignedInt": {"INT", 0}, "positiveInteger": {"INT", 0}, "double": {"FLOAT", 0},
 }
 var xsdPrimNames = []string{"string", "integer", "int", "boolean", "date"}
+var xsdWidePrimNames = []string{"string", "integer", "int", "boolean", "date", "dateTime", "decimal", "float", "time", "NMTOKEN", "token", "anyURI",
+	"normalizedString", "long", "short", "unsignedInt", "positiveInteger", "double"}
+
+// xsdNumericDefault: numeric XSD builtins for which the importer has neither a mapping nor a Sysl type of the same
+// name: makeXsdBuiltinType's default turns them into string
+var xsdNumericDefault = map[string]bool{"long": true, "short": true, "unsignedInt": true, "positiveInteger": true, "double": true}
 
 // ---------------------------------------------------------------- rendering
 
@@ -181,6 +301,13 @@ func oasSchema(format string, s schema) map[string]interface{} {
 	panic("schema kind " + s.Kind)
 }
 
+func mediaTypes(l []string) []string {
+	if len(l) == 0 {
+		return []string{"application/json"}
+	}
+	return l
+}
+
 func renderOAS(d doc) string {
 	defs := map[string]interface{}{}
 	for _, s := range d.Schemas {
@@ -225,11 +352,22 @@ func renderOAS(d doc) string {
 		op := map[string]interface{}{}
 		if e.BodyRef != "" {
 			if d.Format == "openapi3" {
-				op["requestBody"] = map[string]interface{}{"required": true, "content": map[string]interface{}{
-					"application/json": map[string]interface{}{"schema": map[string]interface{}{"$ref": refPath(d.Format, e.BodyRef)}}}}
+				content := map[string]interface{}{}
+				for _, mt := range d.effConsumes(e) {
+					content[mt] = map[string]interface{}{"schema": map[string]interface{}{"$ref": refPath(d.Format, e.BodyRef)}}
+				}
+				op["requestBody"] = map[string]interface{}{"required": true, "content": content}
 			} else {
 				ps = append(ps, map[string]interface{}{"name": "body", "in": "body", "required": true,
 					"schema": map[string]interface{}{"$ref": refPath(d.Format, e.BodyRef)}})
+			}
+		}
+		if d.Format != "openapi3" {
+			if len(e.Consumes) > 0 {
+				op["consumes"] = e.Consumes
+			}
+			if len(e.Produces) > 0 {
+				op["produces"] = e.Produces
 			}
 		}
 		if ps != nil {
@@ -238,13 +376,22 @@ func renderOAS(d doc) string {
 		rs := map[string]interface{}{}
 		for _, r := range e.Resps {
 			rm := map[string]interface{}{"description": "d"}
-			if r.Ref != "" {
-				var sch interface{} = map[string]interface{}{"$ref": refPath(d.Format, r.Ref)}
+			if r.Ref != "" || r.Prim != "" {
+				var sch interface{}
+				if r.Ref != "" {
+					sch = map[string]interface{}{"$ref": refPath(d.Format, r.Ref)}
+				} else {
+					sch = oasPrimJSON(r.Prim)
+				}
 				if r.Array {
 					sch = map[string]interface{}{"type": "array", "items": sch}
 				}
 				if d.Format == "openapi3" {
-					rm["content"] = map[string]interface{}{"application/json": map[string]interface{}{"schema": sch}}
+					content := map[string]interface{}{}
+					for _, mt := range mediaTypes(e.Produces) {
+						content[mt] = map[string]interface{}{"schema": sch}
+					}
+					rm["content"] = content
 				} else {
 					rm["schema"] = sch
 				}
@@ -262,6 +409,9 @@ func renderOAS(d doc) string {
 		root["swagger"] = "2.0"
 		root["produces"] = []string{"application/json"}
 		root["definitions"] = defs
+		if len(d.Consumes) > 0 {
+			root["consumes"] = d.Consumes
+		}
 	}
 	b, err := json.MarshalIndent(root, "", " ")
 	if err != nil {
@@ -475,6 +625,7 @@ type fieldProj struct {
 	HasTag  bool
 	Pats    []string
 	NameAt  string // the attribute `name` (SQL / header parameters)
+	Media   string // the attribute `mediatype` (body parameters, fields of a response wrapper type)
 }
 
 func bitsOf(t *sysl.Type) int {
@@ -519,6 +670,9 @@ func projField(t *sysl.Type) fieldProj {
 	}
 	if a, ok := t.GetAttrs()["name"]; ok {
 		f.NameAt = a.GetS()
+	}
+	if a, ok := t.GetAttrs()["mediatype"]; ok {
+		f.Media = a.GetS()
 	}
 	if a, ok := t.GetAttrs()["patterns"]; ok {
 		for _, e := range a.GetA().GetElt() {
@@ -638,7 +792,7 @@ func docNameClasses(d doc) string {
 func expPrim(format, p string) primExp {
 	switch format {
 	case "swagger", "openapi3":
-		return oasPrims[p]
+		return oasPrimExp(p)
 	case "xsd":
 		return xsdPrims[p]
 	}
@@ -666,8 +820,10 @@ func (j *judgeCtx) checkField(where string, p prop, f fieldProj, inlineName stri
 			if f.Kind != "REF" || f.Ref != p.FK {
 				j.fail("foreign-key:"+fmtn, fmt.Sprintf("%s: foreign key to %s but the compiled field is %s %s", where, p.FK, f.Kind, f.Ref))
 			}
-		} else if f.Kind != e.kind || (e.bits != 0 && f.Bits != e.bits) {
-			j.fail("kind:"+fmtn+":"+p.T.Prim, fmt.Sprintf("%s: foreign type %s should be %s/%d, compiled as %s/%d", where, p.T.Prim, e.kind, e.bits, f.Kind, f.Bits))
+		} else if fmtn == "xsd" && xsdNumericDefault[p.T.Prim] && f.Kind == "STRING" {
+			j.fail("kind:xsd:numeric-builtin-as-string", fmt.Sprintf("%s: xs:%s is a number, compiled as STRING (no mapping for it, and makeXsdBuiltinType's default is string)", where, p.T.Prim))
+		} else if !primMatches(p.T.Prim, e, f) {
+			j.fail("kind:"+fmtn+":"+primClass(p.T.Prim), fmt.Sprintf("%s: foreign type %s should be %s/%d, compiled as %s/%d", where, p.T.Prim, e.kind, e.bits, f.Kind, f.Bits))
 		}
 	case "ref":
 		ok := false
@@ -802,8 +958,8 @@ func (j *judgeCtx) checkSchemas(app *sysl.Application) {
 		case "prim":
 			f := projField(t)
 			e := expPrim(j.d.Format, s.Elem.Prim)
-			if f.Kind != e.kind {
-				j.fail("kind:"+j.d.Format+":"+s.Elem.Prim, fmt.Sprintf("schema %q: foreign type %s should be %s, compiled as %s", s.Name, s.Elem.Prim, e.kind, f.Kind))
+			if !primMatches(s.Elem.Prim, e, f) {
+				j.fail("kind:"+j.d.Format+":definition:"+primClass(s.Elem.Prim), fmt.Sprintf("schema %q: foreign type %s should be %s/%d, compiled as %s/%d %s", s.Name, s.Elem.Prim, e.kind, e.bits, f.Kind, f.Bits, f.Ref))
 			}
 		case "enum":
 			f := projField(t)
@@ -846,7 +1002,7 @@ func (j *judgeCtx) checkEndpoints(app *sysl.Application) {
 			j.fail("extra-param:"+j.d.Format, fmt.Sprintf("%s: %d query and %d path parameters compiled for %d and %d in the document", key, len(rp.GetQueryParam()), len(rp.GetUrlParam()), nq, nu))
 		}
 		for _, p := range eff {
-			exp := oasPrims[p.Prim]
+			exp := oasPrimExp(p.Prim)
 			var got *sysl.Type
 			switch p.In {
 			case "query":
@@ -884,65 +1040,247 @@ func (j *judgeCtx) checkEndpoints(app *sysl.Application) {
 				continue
 			}
 			f := projField(got)
-			if f.Kind != exp.kind || (exp.bits != 0 && f.Bits != exp.bits) {
-				j.fail("param-kind:"+j.d.Format+":"+p.In+":"+p.Prim, fmt.Sprintf("%s: %s parameter %q of type %s compiled as %s/%d", key, p.In, p.Name, p.Prim, f.Kind, f.Bits))
+			if !primMatches(p.Prim, exp, f) {
+				j.fail("param-kind:"+j.d.Format+":"+primClass(p.Prim)+":"+p.In, fmt.Sprintf("%s: %s parameter %q of type %s compiled as %s/%d", key, p.In, p.Name, p.Prim, f.Kind, f.Bits))
 			}
 			if p.In != "path" && f.Opt == p.Required {
 				j.fail("param-optionality:"+j.d.Format+":"+p.In, fmt.Sprintf("%s: %s parameter %q required=%v but opt=%v", key, p.In, p.Name, p.Required, f.Opt))
 			}
 		}
 		if e.BodyRef != "" {
-			found := false
-			for _, q := range ep.GetParam() {
-				f := projField(q.GetType())
-				for _, c := range candidates(e.BodyRef) {
-					if f.Kind == "REF" && f.Ref == c {
-						found = true
+			want := resp{Ref: e.BodyRef}
+			mts := j.d.effConsumes(e)
+			any := false
+			for _, mt := range mts {
+				ok := false
+				for _, q := range ep.GetParam() {
+					if carries(app, q.GetType(), want, mt, 0) {
+						ok, any = true, true
 					}
 				}
+				if !ok && len(mts) > 1 {
+					var have []string
+					for _, q := range ep.GetParam() {
+						f := projField(q.GetType())
+						have = append(have, fmt.Sprintf("%s <: %s%s [%s]", q.GetName(), f.Kind, f.Ref, f.Media))
+					}
+					k := "missing-body:" + j.d.Format + ":media-type"
+					for _, other := range mts {
+						if other != mt && mediaIdent(other) == mediaIdent(mt) {
+							// the two media types differ only in characters the importer drops when it makes
+							// the parameter's name: a finding of its own
+							k += ":same-identifier"
+							break
+						}
+					}
+					j.fail(k, fmt.Sprintf("%s: %d request media types %q, but no request parameter that carries %q as %s (parameters: %q)", key, len(mts), mts, e.BodyRef, mt, have))
+				}
 			}
-			if !found {
+			if !any {
 				j.fail("missing-body:"+j.d.Format, fmt.Sprintf("%s: no request parameter of type %q", key, e.BodyRef))
 			}
 		}
-		for _, r := range e.Resps {
-			found := false
-			for _, st := range ep.GetStmt() {
-				ret := st.GetRet()
-				if ret == nil {
+		j.checkResponses(app, key, e, ep)
+	}
+}
+
+// mediaIdent: the letters and digits of a media type, lower-cased (what is left of it in an identifier)
+func mediaIdent(mt string) string {
+	var b strings.Builder
+	for _, r := range strings.ToLower(mt) {
+		if r >= 'a' && r <= 'z' || r >= '0' && r <= '9' {
+			b.WriteRune(r)
+		}
+	}
+	return b.String()
+}
+
+// the type words the compiler reads as primitives, for response payloads (which the compiled model keeps as text)
+var wordKinds = map[string]primExp{"int": {"INT", 0}, "int32": {"INT", 32}, "int64": {"INT", 64}, "float": {"FLOAT", 0}, "float32": {"FLOAT", 32},
+	"float64": {"FLOAT", 64}, "string": {"STRING", 0}, "bool": {"BOOL", 0}, "date": {"DATE", 0}, "datetime": {"DATETIME", 0}, "bytes": {"BYTES", 0},
+	"decimal": {"DECIMAL", 0}, "any": {"ANY", 0}}
+
+// wordProj: what a type word of a return payload denotes
+func wordProj(w string) fieldProj {
+	var f fieldProj
+	if strings.HasPrefix(w, "sequence of ") {
+		f = wordProj(strings.TrimPrefix(w, "sequence of "))
+		f.Seq = true
+		return f
+	}
+	if strings.HasPrefix(w, "set of ") {
+		f = wordProj(strings.TrimPrefix(w, "set of "))
+		f.Seq = true
+		return f
+	}
+	if k, ok := wordKinds[strings.ToLower(w)]; ok {
+		return fieldProj{Kind: k.kind, Bits: k.bits}
+	}
+	return fieldProj{Kind: "REF", Ref: w}
+}
+
+// respTypeOK: does a compiled field / payload type carry the response's schema (kind or reference, array-ness)?
+func respTypeOK(r resp, f fieldProj) bool {
+	if f.Seq != r.Array {
+		return false
+	}
+	if r.Ref != "" {
+		for _, c := range candidates(r.Ref) {
+			if f.Kind == "REF" && f.Ref == c {
+				return true
+			}
+		}
+		return false
+	}
+	return primMatches(r.Prim, oasPrimExp(r.Prim), f)
+}
+
+// carries: does the compiled type t denote the schema r (a $ref or primitive, possibly an array) when the media type
+// is mt? Directly; or through the types the importers generate around it: an alias of it, a tuple with a field
+// that carries it, a union with a member that carries it. An attribute `mediatype` on the way restricts the path to
+// that media type.
+func carries(app *sysl.Application, t *sysl.Type, r resp, mt string, depth int) bool {
+	if t == nil || depth > 6 {
+		return false
+	}
+	f := projField(t)
+	if f.Media != "" && f.Media != mt {
+		return false
+	}
+	if respTypeOK(r, f) {
+		return true
+	}
+	if defs, _ := attrDefs(t); defs != nil {
+		for _, ft := range defs {
+			if carries(app, ft, r, mt, depth+1) {
+				return true
+			}
+		}
+		return false
+	}
+	if u := t.GetOneOf(); u != nil {
+		for _, m := range u.GetType() {
+			if carries(app, m, r, mt, depth+1) {
+				return true
+			}
+		}
+		return false
+	}
+	if f.Kind == "REF" && !f.Seq {
+		if nt, ok := app.Types[f.Ref]; ok {
+			return carries(app, nt, r, mt, depth+1)
+		}
+	}
+	return false
+}
+
+func describeType(app *sysl.Application, t *sysl.Type, depth int) string {
+	if t == nil || depth > 3 {
+		return "?"
+	}
+	f := projField(t)
+	if defs, _ := attrDefs(t); defs != nil {
+		var fs []string
+		for n, ft := range defs {
+			fs = append(fs, n+": "+describeType(app, ft, depth+1))
+		}
+		sort.Strings(fs)
+		return "{" + strings.Join(fs, "; ") + "}"
+	}
+	if u := t.GetOneOf(); u != nil {
+		var ms []string
+		for _, m := range u.GetType() {
+			ms = append(ms, describeType(app, m, depth+1))
+		}
+		return "union(" + strings.Join(ms, " | ") + ")"
+	}
+	out := f.Kind
+	if f.Kind == "REF" {
+		out = f.Ref
+		if nt, ok := app.Types[f.Ref]; ok && depth < 3 {
+			out += "=" + describeType(app, nt, depth+1)
+		}
+	}
+	if f.Seq {
+		out = "sequence of " + out
+	}
+	if f.Media != "" {
+		out += " [" + f.Media + "]"
+	}
+	return out
+}
+
+func respClass(r resp) string {
+	if r.Ref != "" {
+		return "ref"
+	}
+	return primClass(r.Prim)
+}
+
+// checkResponses: one return per response of the operation, carrying its type: directly, or - with several
+// response media types - through a type that has one field of the response's type per media type.
+func (j *judgeCtx) checkResponses(app *sysl.Application, key string, e endpoint, ep *sysl.Endpoint) {
+	var have []string
+	for _, st := range ep.GetStmt() {
+		if st.GetRet() != nil {
+			have = append(have, st.GetRet().GetPayload())
+		}
+	}
+	for _, r := range e.Resps {
+		// `default` has no status code: the importer writes it as ok / error
+		prefixes := []string{r.Code}
+		if r.Code == "default" {
+			prefixes = []string{"default", "ok", "error"}
+		}
+		seen, typed, mediaFailed := false, false, false
+		for _, pl := range have {
+			for _, px := range prefixes {
+				if !strings.HasPrefix(pl, px) {
 					continue
 				}
-				pl := ret.GetPayload()
-				if !strings.HasPrefix(pl, r.Code) {
+				rest := pl[len(px):]
+				if rest != "" && rest[0] != ' ' {
 					continue
 				}
-				if r.Ref == "" {
-					found = true
+				seen = true
+				if r.Ref == "" && r.Prim == "" {
+					typed = true
 					continue
 				}
-				for _, c := range candidates(r.Ref) {
-					want := "<: " + c
-					if r.Array {
-						want = "<: sequence of " + c
-					}
-					rest := strings.TrimPrefix(pl, r.Code)
-					if strings.HasPrefix(strings.TrimSpace(rest), want) {
-						after := strings.TrimPrefix(strings.TrimSpace(rest), want)
-						if after == "" || after[0] == ' ' {
-							found = true
+				rest = strings.TrimSpace(rest)
+				if !strings.HasPrefix(rest, "<:") {
+					continue
+				}
+				tw := strings.TrimSpace(strings.TrimPrefix(rest, "<:"))
+				if i := strings.Index(tw, " ["); i >= 0 {
+					tw = tw[:i]
+				}
+				if respTypeOK(r, wordProj(tw)) {
+					typed = true
+					continue
+				}
+				// a named type that carries the response's type for every response media type
+				if wt, ok := app.Types[tw]; ok {
+					all := true
+					for _, mt := range mediaTypes(e.Produces) {
+						if !carries(app, wt, r, mt, 0) {
+							all = false
+							if len(mediaTypes(e.Produces)) > 1 {
+								mediaFailed = true
+								j.fail("response-media-type:"+j.d.Format+":"+respClass(r), fmt.Sprintf("%s: response %s has %d media types %q; the type %q of its return does not carry the response's type for %s (%s)", key, r.Code, len(mediaTypes(e.Produces)), mediaTypes(e.Produces), tw, mt, describeType(app, wt, 0)))
+							}
 						}
 					}
-				}
-			}
-			if !found {
-				var have []string
-				for _, st := range ep.GetStmt() {
-					if st.GetRet() != nil {
-						have = append(have, st.GetRet().GetPayload())
+					if all {
+						typed = true
 					}
 				}
-				j.fail("missing-response:"+j.d.Format, fmt.Sprintf("%s: response %s (type %q, array=%v) not among the returns %q", key, r.Code, r.Ref, r.Array, have))
 			}
+		}
+		if !seen {
+			j.fail("missing-response:"+j.d.Format, fmt.Sprintf("%s: response %s not among the returns %q", key, r.Code, have))
+		} else if !typed && !mediaFailed {
+			j.fail("response-type:"+j.d.Format+":"+respClass(r), fmt.Sprintf("%s: response %s (type %q%s, array=%v) is not what its return carries: %q", key, r.Code, r.Ref, r.Prim, r.Array, have))
 		}
 	}
 }
@@ -984,6 +1322,9 @@ func judgeDocLocal(d doc) docObs {
 	}
 	imp := runImport(d, text, fn)
 	o.ImpErr, o.ImpText = imp.err, imp.text
+	if d.ImportOnly {
+		return o
+	}
 	if imp.panicked {
 		j.fail("import-panics:"+d.Format, "the importer panics: "+firstLine(imp.err))
 		return o
@@ -1022,13 +1363,70 @@ func judgeDocLocal(d doc) docObs {
 			// the same finding as a failing first import: kin-openapi's conversion rejects a recursive schema or
 			// not depending on the order in which it happens to visit its maps
 			j.fail("import-fails:"+d.Format+":circular-ref", "the second import of a document with a recursive schema fails (the first succeeded): "+firstLine(second.err))
+		} else if mediaCollision(d) {
+			j.fail("second-import-differs:"+d.Format+":media-same-identifier", "importing the same document again gives different text: two request media types of one operation give the same parameter name, and which body parameter survives depends on the map order")
 		} else if orderDependentArray(d) {
 			j.fail("second-import-differs:"+d.Format+":array-of-builtin-prefixed-ref", "importing the same document again gives different text: an array definition whose items are a $ref to a definition named like a builtin-type prefix is written with or without the `_` prefix depending on the map order")
 		} else {
 			j.fail("second-import-differs:"+d.Format, "importing the same document again gives different text")
 		}
 	}
+	for i := 0; o.Same && i < d.Repeat; i++ {
+		again := runImport(d, text, fn)
+		if again.text != imp.text || again.err != imp.err {
+			o.Same = false
+			if strings.Contains(again.err, "circular schema reference") {
+				j.fail("import-fails:"+d.Format+":circular-ref", "a later import of a document with a recursive schema fails (the first succeeded): "+firstLine(again.err))
+				break
+			}
+			if mediaCollision(d) {
+				j.fail("second-import-differs:"+d.Format+":media-same-identifier", "importing the same document again gives different text: two request media types of one operation give the same parameter name, and which body parameter survives depends on the map order")
+				break
+			}
+			if orderDependentArray(d) {
+				j.fail("second-import-differs:"+d.Format+":array-of-builtin-prefixed-ref", "importing the same document again gives different text: an array definition whose items are a $ref to a definition named like a builtin-type prefix is written with or without the `_` prefix depending on the map order")
+				break
+			}
+			j.fail("second-import-differs:"+d.Format, fmt.Sprintf("import number %d of the same document in one process gives different text:\n%s", i+3, firstDiff(imp.text, again.text)))
+		}
+	}
 	return o
+}
+
+// mediaCollision: an operation with two request media types that differ only in characters the importer drops
+func mediaCollision(d doc) bool {
+	for _, e := range d.Eps {
+		if e.BodyRef == "" {
+			continue
+		}
+		mts := d.effConsumes(e)
+		for i := range mts {
+			for k := i + 1; k < len(mts); k++ {
+				if mediaIdent(mts[i]) == mediaIdent(mts[k]) {
+					return true
+				}
+			}
+		}
+	}
+	return false
+}
+
+// firstDiff: the first line in which two texts differ
+func firstDiff(a, b string) string {
+	la, lb := strings.Split(a, "\n"), strings.Split(b, "\n")
+	for i := 0; i < len(la) || i < len(lb); i++ {
+		x, y := "", ""
+		if i < len(la) {
+			x = la[i]
+		}
+		if i < len(lb) {
+			y = lb[i]
+		}
+		if x != y {
+			return fmt.Sprintf("line %d: %q / %q", i+1, strings.TrimSpace(x), strings.TrimSpace(y))
+		}
+	}
+	return "(no difference)"
 }
 
 func docWorker(line []byte) interface{} {
@@ -1072,6 +1470,10 @@ func mergeDoc(c *common.Ctx, d doc, o docObs, died, timedOut bool, stderr string
 	reported := map[string]bool{}
 	for _, f := range o.Failures {
 		cl := keyClass(f[0])
+		if strings.HasPrefix(cl, "kind:") || strings.HasPrefix(cl, "param-kind:") || strings.HasPrefix(cl, "response-type:") {
+			// one finding per foreign primitive class, not one per document
+			cl = f[0]
+		}
 		if reported[cl] {
 			continue
 		}
@@ -1208,11 +1610,12 @@ func projectApp(d doc, app *sysl.Application) json.RawMessage {
 
 // projectEndpoints: per endpoint, the parameters by location (what Foreign/EndpointSpec.v predicts)
 type epOut struct {
-	Key    string     `json:"k"`
-	Query  []fieldOut `json:"q"`
-	URL    []fieldOut `json:"u"`
-	Header []fieldOut `json:"h"`
-	Body   []string   `json:"b"`
+	Key    string      `json:"k"`
+	Query  []fieldOut  `json:"q"`
+	URL    []fieldOut  `json:"u"`
+	Header []fieldOut  `json:"h"`
+	Body   [][2]string `json:"b"` // body parameters: type, media type
+	Rets   []string    `json:"r"` // the payloads of the return statements, in order
 }
 
 func projectEndpoints(app *sysl.Application) json.RawMessage {
@@ -1236,9 +1639,14 @@ func projectEndpoints(app *sysl.Application) json.RawMessage {
 			case isHeader:
 				x.Header = append(x.Header, fieldOut{f.NameAt, f})
 			case isBody:
-				x.Body = append(x.Body, f.Ref)
+				x.Body = append(x.Body, [2]string{f.Ref, f.Media})
 			default:
-				x.Body = append(x.Body, "?"+q.GetName())
+				x.Body = append(x.Body, [2]string{"?" + q.GetName(), f.Media})
+			}
+		}
+		for _, st := range ep.GetStmt() {
+			if st.GetRet() != nil {
+				x.Rets = append(x.Rets, st.GetRet().GetPayload())
 			}
 		}
 		out = append(out, x)
@@ -1246,6 +1654,49 @@ func projectEndpoints(app *sysl.Application) json.RawMessage {
 	sort.Slice(out, func(i, j int) bool { return out[i].Key < out[j].Key })
 	b, _ := json.Marshal(out)
 	return b
+}
+
+// gOps: the operations with their responses, for Foreign/ResponseSpec.v
+func gOps(d doc) string {
+	var ops []string
+	for _, e := range d.Eps {
+		var rs, mts []string
+		for _, r := range e.Resps {
+			sch := "None"
+			switch {
+			case r.Ref != "":
+				sch = "(Some (FRef " + gb(r.Ref) + "))"
+			case r.Prim != "":
+				sch = "(Some " + gFtype(ptype{Kind: "prim", Prim: r.Prim}) + ")"
+			}
+			rs = append(rs, fmt.Sprintf("mkr %s %s %s", gb(r.Code), sch, common.GBool(r.Array)))
+		}
+		for _, mt := range mediaTypes(e.Produces) {
+			mts = append(mts, gb(mt))
+		}
+		ops = append(ops, fmt.Sprintf("mko %s %s %s %s", gb(e.Path), common.GString(e.Method), common.GList(mts), common.GList(rs)))
+	}
+	return common.GList(ops)
+}
+
+// gRets: the observed return lines per endpoint
+func gRets(raw json.RawMessage) (string, bool) {
+	var es []epOut
+	if raw == nil {
+		return "[]", true
+	}
+	if err := json.Unmarshal(raw, &es); err != nil {
+		return "", false
+	}
+	var out []string
+	for _, e := range es {
+		var rs []string
+		for _, r := range e.Rets {
+			rs = append(rs, gb(r))
+		}
+		out = append(out, fmt.Sprintf("(%s, %s)", gb(e.Key), common.GList(rs)))
+	}
+	return common.GList(out), true
 }
 
 func gParam(p param) string {
@@ -1273,7 +1724,11 @@ func gEndpoints(d doc) string {
 		if e.BodyRef != "" {
 			body = "(Some " + gb(e.BodyRef) + ")"
 		}
-		eps = append(eps, fmt.Sprintf("mke %s %s %s %s %s", gb(e.Path), common.GString(e.Method), common.GList(common_), common.GList(own), body))
+		var cons []string
+		for _, mt := range d.effConsumes(e) {
+			cons = append(cons, gb(mt))
+		}
+		eps = append(eps, fmt.Sprintf("mke %s %s %s %s %s %s", gb(e.Path), common.GString(e.Method), common.GList(common_), common.GList(own), body, common.GList(cons)))
 	}
 	return common.GList(eps)
 }
@@ -1294,7 +1749,7 @@ func gEpProj(raw json.RawMessage) (string, bool) {
 	for _, e := range es {
 		var bs []string
 		for _, x := range e.Body {
-			bs = append(bs, gb(x))
+			bs = append(bs, fmt.Sprintf("(%s, %s)", gb(x[0]), gb(x[1])))
 		}
 		out = append(out, fmt.Sprintf("(%s, mkep %s %s %s %s)", gb(e.Key), fl(e.Query), fl(e.URL), fl(e.Header), common.GList(bs)))
 	}
